@@ -21,7 +21,10 @@
   Because of the in-place rewrite the model returns a PAIR: the folded result and the original node as it
   looks after the call (what the parent keeps pointing to when it "returns expr").
 -/
+import GLua.Spec.CondAst
+
 namespace GLua.ConstFold
+open GLua.Compile (ArithOp)
 
 /-- the number structure: run-time arithmetic (`numberArith`, `luaModulo`, `math.Pow`, unary minus),
     `math.NaN()` and `parseNumber` (`none` = it returned an error). -/
@@ -35,10 +38,6 @@ structure NumOps (N : Type) where
   neg : N → N
   nan : N
   parse : String → Option N
-
-inductive ArithOp where
-  | add | sub | mul | div | mod | pow
-deriving DecidableEq, Repr
 
 def NumOps.apply {N} (ops : NumOps N) : ArithOp → N → N → N
   | .add => ops.add | .sub => ops.sub | .mul => ops.mul
